@@ -135,8 +135,12 @@ fn gen_boundary_case(rng: &mut Rng) -> (Vec<Entry>, WCfg) {
     cfg.interval = Some(*rng.pick(&[1usize, 1, 2, 3, 8, 64]));
     let n = rng.range(2, 80);
     let mut entries = Vec::new();
+    if rng.chance(1, 6) {
+        // the empty key first, with a value that alone (nearly) fills a block
+        entries.push((vec![], rng.bytes(rng.clone().range(b_eff.saturating_sub(30), b_eff + 10))));
+    }
     for i in 0..n {
-        let mut k = (i as u32).to_be_bytes().to_vec();
+        let mut k = (i as u32 + 1).to_be_bytes().to_vec();
         let total = match rng.below(6) {
             0 => rng.range(b_eff.saturating_sub(40), b_eff + 40),
             1 => rng.range(b_eff / 2 - 20, b_eff / 2 + 20),
